@@ -469,15 +469,7 @@ func runC16(cs *c16Case, scratch string, idx int, sr *run.ShardResult) (class, d
 		set := &callSet{}
 		var maxTop uint64
 		var stopS int32
-		go func() {
-			for atomic.LoadInt32(&stopS) == 0 {
-				st, _ := coll.Stats()
-				if st != nil && st.CurDirtyTopSegments > atomic.LoadUint64(&maxTop) {
-					atomic.StoreUint64(&maxTop, st.CurDirtyTopSegments)
-				}
-				time.Sleep(50 * time.Microsecond)
-			}
-		}()
+		go statsSampler(coll, &stopS, &maxTop)
 		for w := 0; w < cs.Writers; w++ {
 			w := w
 			set.goCall(fmt.Sprintf("writer#%d", w), func() error {
@@ -744,4 +736,17 @@ func init() {
 		return nil, ""
 	}
 	run.Register(ck)
+}
+
+// statsSampler polls Stats() until told to stop.  Its name is known to the
+// quiescence detector, which ignores it: a sampler that is still polling is
+// not progress of the system under test.
+func statsSampler(coll moss.Collection, stop *int32, maxTop *uint64) {
+	for atomic.LoadInt32(stop) == 0 {
+		st, _ := coll.Stats()
+		if st != nil && st.CurDirtyTopSegments > atomic.LoadUint64(maxTop) {
+			atomic.StoreUint64(maxTop, st.CurDirtyTopSegments)
+		}
+		time.Sleep(50 * time.Microsecond)
+	}
 }
